@@ -379,6 +379,20 @@ def run_case(case):
                 for idx, payload in enumerate(payloads):
                     arrivals.append((key, idx, payload, peer))
             rng.shuffle(arrivals)
+            if rng.random() < 0.4 and originals:
+                # afterwards the same peer starts over with a transfer number it has used before (a restarted sender): a complete,
+                # in-order second transfer under an old number must be reassembled like any other
+                (peer, skip) = rng.choice(sorted(originals))
+                mtu = rng.choice([40, 64])
+                problems, payloads, bundle = check_send(rng.randint(mtu, 4 * mtu), mtu, obs, skip_ids=skip, salt=50 + len(originals))
+                if not problems and len(payloads) >= 2:
+                    key2 = (peer, skip, 'again')
+                    originals[key2] = (bundle, len(payloads))
+                    order = list(range(len(payloads)))
+                    if rng.random() < 0.5:
+                        rng.shuffle(order)
+                    arrivals += [(key2, idx, payloads[idx], peer) for idx in order]
+                    obs['reused_transfer_numbers'] = obs.get('reused_transfer_numbers', 0) + 1
             if len(originals) >= 2:
                 obs['interleaved_histories'] += 1
                 note(check_receive(arrivals, originals, obs), 'interleaved', dict(transfers=len(originals), frames=len(arrivals)),
